@@ -172,13 +172,7 @@ class Session(object):
                 v = LemmaVerifier(self.prog, self.specs, lem, lem.pkg, resolver=self.resolver)
             else:
                 v = Verifier(self.prog, self.specs, full, resolver=self.resolver)
-                v.spec = spec
-                if spec:
-                    v.wrap_types = set()
-                    for w in spec.opts.get('wrap', []):
-                        v.wrap_types |= set(w.replace(',', ' ').split())
-                    v.track_init = any('init' in x for x in spec.opts.get('track', []))
-                    v.check_wide_ovf = any('int' in x.split() for x in spec.opts.get('ovf', []))
+                v.configure(spec)
             ctx = v.run()
         except (Unsupported, SpecError) as ex:
             res['error'] = '%s: %s' % (type(ex).__name__, ex)
@@ -218,16 +212,7 @@ class Session(object):
                 spec = None
             else:
                 v = Verifier(self.prog, self.specs, full, resolver=self.resolver)
-                v.spec = spec
-            if spec:
-                # re-read options that depend on the spec
-                v.__init__(self.prog, self.specs, full, resolver=self.resolver)
-                v.spec = spec
-                v.wrap_types = set()
-                for w in spec.opts.get('wrap', []):
-                    v.wrap_types |= set(w.replace(',', ' ').split())
-                v.track_init = any('init' in x for x in spec.opts.get('track', []))
-                v.check_wide_ovf = any('int' in x.split() for x in spec.opts.get('ovf', []))
+                v.configure(spec)
             ctx = v.run()
         except Exception as ex:
             res['error'] = '%s: %s' % (type(ex).__name__, ex)
